@@ -61,6 +61,19 @@ var joinFn = function.New(&function.Spec{
 	},
 })
 
+// joinVarFn is variadic: join(a, b, ...)
+var joinVarFn = function.New(&function.Spec{
+	VarParam: &function.Parameter{Name: "xs", Type: cty.Number},
+	Type:     function.StaticReturnType(cty.String),
+	Impl: func(args []cty.Value, _ cty.Type) (cty.Value, error) {
+		var sb strings.Builder
+		for _, v := range args {
+			sb.WriteString(v.AsBigFloat().String() + ",")
+		}
+		return cty.StringVal(sb.String()), nil
+	},
+})
+
 func ctxFor(i int) *hcl.EvalContext {
 	return &hcl.EvalContext{Functions: map[string]function.Function{"join": joinFn}, Variables: map[string]cty.Value{
 		"l": objs(i),
@@ -237,6 +250,14 @@ func All() []Driver {
 			}),
 		)
 	}
+	// D10: function call with an expanded final argument on one shared expression
+	ds = append(ds,
+		exprDriver("D10-call-expansion-2", "call with expansion of a splat result, evaluated concurrently and once per for element", `[join(l[*].a...), [for o in l : join(o.b...)]]`, 2, func(i int) *hcl.EvalContext {
+			c := ctxFor(i)
+			c.Functions["join"] = joinVarFn
+			return c
+		}),
+	)
 	// D6: contexts that are children of one shared parent
 	ds = append(ds, Driver{Name: "D6-shared-parent-3", Doc: "child contexts of one shared parent context: l[*].a + n", Threads: 3,
 		Setup: func() any {
